@@ -230,6 +230,31 @@ def strip_preproc(body):
     return '\n'.join(out)
 
 
+
+def strip_preproc_abs(body):
+    """Keep the branches compiled by default: ABSOLUTE_DISTANCES and TRANSITIVE_TRANSITION are not defined."""
+    out, stack = [], []
+    for line in body.split('\n'):
+        t = line.strip()
+        if t.startswith('#ifndef ABSOLUTE_DISTANCES'):
+            stack.append(True)
+        elif t.startswith('#ifdef ABSOLUTE_DISTANCES') or t.startswith('#ifdef TRANSITIVE_TRANSITION') or t.startswith('#ifdef YAEP_VERIF'):
+            stack.append(False)
+        elif t.startswith('#ifndef TRANSITIVE_TRANSITION'):
+            stack.append(True)
+        elif t.startswith('#if'):
+            stack.append(True)
+        elif t.startswith('#else'):
+            if stack:
+                stack[-1] = not stack[-1]
+        elif t.startswith('#endif'):
+            if stack:
+                stack.pop()
+        elif all(stack):
+            out.append(line)
+    return '\n'.join(out)
+
+
 def block_after(text, pos):
     """text[pos] is '{' : returns (inside, index after the closing brace)."""
     assert text[pos] == '{'
@@ -409,6 +434,24 @@ def main():
     if not m or not m2:
         raise Fail('check_cached_transition_set: distance threshold / origin comparison not in the expected shape')
     L.append('Definition cache_thr : Z := %s.   (* start situations with distance <= cache_thr are not compared *)' % m.group(1))
+    # the two places whose sets the validity test compares, and the place the completer of build_new_set looks at
+    m3 = re.search(r'pl\s*\[([^\]]+)\]\s*!=\s*pl\s*\[([^\]]+)\]', b)
+    ren = {'pl_curr': 'k', 'place': 'p', 'dist': 'd'}
+    L.append('Definition cache_index_now (k p d : Z) : Z := %s.' % c_expr_to_gallina(m3.group(1), ren))
+    L.append('Definition cache_index_then (k p d : Z) : Z := %s.' % c_expr_to_gallina(m3.group(2), ren))
+    bn = strip_preproc_abs(func_body(yaep_c, 'build_new_set'))
+    m4 = re.search(r'\bplace\s*=\s*([^;]+);\s*prev_set\s*=\s*pl\s*\[\s*place\s*\]', bn)
+    if not m4:
+        raise Fail('build_new_set: place of the completed rule not found')
+    L.append('Definition completion_place (k d : Z) : Z := %s.' % c_expr_to_gallina(m4.group(1), {'pl_curr': 'k', 'new_dist': 'd'}))
+    # the lookahead filters of build_new_set (scan loop, completion loop): the same clauses, among them the `error' exemption
+    filt = re.findall(r'if\s*\(\s*local_lookahead_level\s*!=\s*0((?:\s*&&\s*!\s*term_set_test\s*\([^()]*\))+)\s*\)\s*continue\s*;', bn)
+    if len(filt) != 2:
+        raise Fail('build_new_set: expected two lookahead filters, found %d' % len(filt))
+    def clauses(f):
+        return sorted(re.sub(r'\s+', '', c) for c in re.findall(r'term_set_test\s*\(\s*new_sit->lookahead\s*,\s*([^()]*?)\s*\)', f))
+    L.append('Definition la_filter_scan : list string := [%s]%%string.' % '; '.join('"%s"' % c for c in clauses(filt[0])))
+    L.append('Definition la_filter_complete : list string := [%s]%%string.' % '; '.join('"%s"' % c for c in clauses(filt[1])))
     L.append('')
 
     # message buffer and formatting primitive
